@@ -279,6 +279,7 @@ def build() -> Check:
             "failure at t_f the next attempt starts at t_a with min(2^(n-1), max) <= t_a - t_f <= max(that, breaker sleep) + 1e-6; a "
             "success resets n; after the second of two losses less than the threshold apart, t_a - t_loss >= sleep. Non-trivial = >=3 "
             "consecutive failures or a double loss (strategy: >=3 failures in a row or a reset after a failure)."
+            ' pacing-dst: scripts with two losses 3 s / 1.3 s apart, the (naive UTC) wall clock reading every full and half hour of a daylight-saving change date and the day before exactly between the two losses, process time zone set to CET/CEST, EST/EDT or Lord Howe by POSIX TZ rule (1152 cases).'
         ),
         assumptions=[
             "Timing is virtual: the harness owns the event loop clock and substitutes han.meter_connection.datetime so that utcnow() follows it (module or class form); if that name disappears the double-loss rule is only judged where virtual and wall time agree.",
